@@ -7,6 +7,7 @@ import (
 	"math/rand"
 	"net"
 	"net/netip"
+	"os"
 	"reflect"
 	"strconv"
 	"strings"
@@ -14,6 +15,9 @@ import (
 
 	"github.com/irai/packet"
 	"github.com/irai/packet/fastlog"
+	"github.com/irai/packet/handlers/arp_spoofer"
+	"github.com/irai/packet/handlers/dhcp4_spoofer"
+	"github.com/irai/packet/handlers/dns_naming"
 
 	"verif/harness/gen"
 	"verif/harness/mon"
@@ -508,6 +512,127 @@ func runC20(c *wk.Ctx) {
 	}
 	// (5) String()/FastLog of valid views and table entries
 	c20Views(t, e)
+	// (6) the library's own log statements while it works
+	c20LibraryLog(t, e, next)
+}
+
+// c20LibraryLog drives the whole stack (session + handlers, all loggers at debug level) through a traffic mix with ageing,
+// purges, capture toggles, hunts and table dumps, and judges every line the library hands to the fastlog writer (mon.LogMon):
+// a line must carry its module tag and must never be a buffer that fastlog has already taken back.
+func c20LibraryLog(t *c20, e gen.Env, next func() bool) {
+	c := t.c
+	scratch := os.Getenv("VERIF_SCRATCH")
+	if scratch == "" {
+		scratch = os.TempDir()
+	}
+	loggers := []*fastlog.Logger{packet.Logger, arp_spoofer.Logger, dhcp4_spoofer.Logger, dns_naming.Logger}
+	n := c.N(64, 1600)
+	for k := int64(0); k < n; k++ {
+		if !next() {
+			continue
+		}
+		r := c.Rand("c20lib", k)
+		for _, l := range loggers {
+			l.SetLevel(fastlog.LevelDebug)
+		}
+		mon.Log.Take()
+		st := newStack(scratch, mon.DefaultNIC())
+		rx := newRx()
+		var hist []string
+		bad := false
+		steps := 150 + r.Intn(150)
+		for step := 0; step < steps && !bad; step++ {
+			var what string
+			pi := c.Guard("C20", func() any { return map[string]any{"index": t.idx, "history_tail": tail(hist, 30), "step": what} }, func() {
+				switch x := r.Intn(20); {
+				case x < 13:
+					b := c09Frame(r, e)
+					what = "frame " + wk.Hex(b[:min(len(b), 48)])
+					frame, err := st.s.Parse(rx.load(b))
+					if err != nil {
+						return
+					}
+					if frame.PayloadID == packet.PayloadMDNS {
+						v4, _, _ := st.dns.ProcessMDNS(frame)
+						if frame.Host != nil && len(v4) > 0 {
+							frame.Host.UpdateMDNSName(v4[0].NameEntry)
+						}
+					} else {
+						st.dispatch(frame)
+					}
+					st.s.Notify(frame)
+					rx.scribble()
+				case x < 15:
+					off := []time.Duration{0, 6 * time.Minute, 62 * time.Minute}[r.Intn(3)]
+					what = "purge +" + off.String()
+					st.s.VerifPurge(time.Now().Add(off))
+				case x < 16:
+					mac := hw(c09MACs[r.Intn(len(c09MACs))])
+					if r.Intn(2) == 0 {
+						what = "capture"
+						st.s.Capture(mac)
+					} else {
+						what = "release"
+						st.s.Release(mac)
+					}
+				case x < 17:
+					what = "print tables"
+					st.s.PrintTable()
+					st.arp.PrintTable()
+					st.icmp6.PrintTable()
+					st.dhcp.PrintTable()
+				case x < 18:
+					i := r.Intn(len(c09MACs))
+					a := packet.Addr{MAC: hw(c09MACs[i]), IP: c09IPs()[r.Intn(6)]}
+					if r.Intn(2) == 0 {
+						what = "arp hunt"
+						st.arp.StartHunt(a)
+					} else {
+						what = "arp stop"
+						st.arp.StopHunt(a)
+					}
+				case x < 19:
+					what = "dhcp minute"
+					st.dhcp.MinuteTicker(time.Now().Add(time.Duration(r.Intn(5)) * time.Hour))
+				default:
+					for len(st.s.C) > 0 {
+						<-st.s.C
+					}
+					what = "drain"
+				}
+			})
+			hist = append(hist, what)
+			if pi != nil {
+				bad = true
+			}
+			st.rec.Take()
+			for len(st.s.C) > 0 {
+				<-st.s.C
+			}
+			for _, b := range mon.Log.Take() {
+				p := strings.SplitN(b, "|", 2)
+				c.Viol("fmt:library-log:"+p[0], fmt.Sprintf("the library wrote this log line after step %d (%s): %q", step, what, p[1]), map[string]any{"index": t.idx, "history_tail": tail(hist, 30)})
+				bad = true
+			}
+		}
+		st.close()
+		time.Sleep(20 * time.Millisecond)
+		for _, l := range loggers {
+			l.SetLevel(fastlog.LevelInfo)
+		}
+		if !bad {
+			c.Obs("library_log_histories", 1)
+			c.Class("library-log")
+		}
+	}
+	c.Obs("library_log_lines_judged", mon.Log.Count())
+}
+
+func tail(s []string, n int) []string {
+	if len(s) > n {
+		return s[len(s)-n:]
+	}
+	return s
 }
 
 func c20Views(t *c20, e gen.Env) {
